@@ -625,18 +625,37 @@ func c06run(tmp string, idx int, h c06hist, kind string) c06result {
 	if err := os.WriteFile(histPath, hb, 0o644); err != nil {
 		return fail(err)
 	}
-	cmd := exec.Command(os.Args[0], "-test.run", "^TestVerifC06Child$", "-test.count", "1")
-	cmd.Env = append(os.Environ(), "VERIF_C06_CHILD=1", "VERIF_C06_HIST="+histPath, "VERIF_C06_OUT="+outPath, "VERIF_C06_BASE="+base)
-	cmd.Dir = tmp
-	all, err := fstrace.Record(cmd, base, logPath)
+	self, err := os.Executable()
 	if err != nil {
 		return fail(err)
 	}
-	var co c06childOut
-	ob, err := os.ReadFile(outPath)
-	if err != nil {
-		return fail(fmt.Errorf("child produced no output: %v", err))
+	var all []fstrace.Call
+	var ob []byte
+	// The child is the real store running the history. If it dies (a panic in the store, a failing
+	// NewStore) the case is reported as a disagreement, not skipped; tracing hiccups get three tries.
+	for try := 0; ; try++ {
+		os.RemoveAll(root)
+		os.RemoveAll(filepath.Join(base, "marks"))
+		os.MkdirAll(root, 0o755)
+		os.MkdirAll(filepath.Join(base, "marks"), 0o755)
+		os.Remove(outPath)
+		cmd := exec.Command(self, "-test.run", "^TestVerifC06Child$", "-test.count", "1")
+		cmd.Env = append(os.Environ(), "VERIF_C06_CHILD=1", "VERIF_C06_HIST="+histPath, "VERIF_C06_OUT="+outPath, "VERIF_C06_BASE="+base)
+		cmd.Dir = tmp
+		var cerr error
+		all, cerr = fstrace.Record(cmd, base, logPath)
+		if cerr == nil {
+			ob, cerr = os.ReadFile(outPath)
+		}
+		if cerr == nil {
+			break
+		}
+		if try >= 2 {
+			return c06result{cs: verifhlib.Case{Coq: "mkcase (mkcfg false 0 0 []) [] [OErr] [CBad 0] []", Kind: kind + "-child-died",
+				Tags: []string{"child-died"}, Sample: map[string]string{"error": cerr.Error(), "history": string(hb)}}, err: cerr}
+		}
 	}
+	var co c06childOut
 	if err := json.Unmarshal(ob, &co); err != nil {
 		return fail(err)
 	}
